@@ -10,6 +10,8 @@
 //   client_valid   : 0-2 interim 1xx + final response (CL / chunked / close-delimited / bodyless) + surplus
 //   client_badlen  : responses with invalid length information are never returned
 //   client_bytes   : mutated / arbitrary bytes: only HttpFramingError leaves the framer
+//   client_caps    : small configured response caps, bodies just below / at / above the cap (Content-Length,
+//                    many small chunks, close-delimited) over several receives: a body beyond the cap is never returned
 #include "pbt.hpp"
 #include "c15_exec.hpp"
 #include "c15_ref_http_gen.hpp"
@@ -560,6 +562,148 @@ PBT_PROPERTY(client_bytes)
   if (f.failed()) c.fail(f.sig, f.what);
 }
 
+// ---------------------------------------------------------------------------- client_caps
+// "input from the peer can never make the endpoint ... buffer beyond its configured caps": the response cap
+// (max(Config::maxResponseBytes, jsonConfig.maxPayloadSize)) is enforced by executeRequest's receive loop on the
+// raw receive buffer, which the framer may edit (it erases interim responses). The probe mirrors that loop on the
+// very buffer frameResponse() works on, so whatever the framer does to the buffer is reflected here.
+// Guaranteed by the unchanged code (and demanded): (a) a returned body is never larger than the cap - the raw
+// buffer holds at least the whole body when the message completes; (b) if everything the peer ever sent fits the
+// cap, the response is returned exactly. Between (a) and (b) either outcome is acceptable.
+namespace
+{
+struct CapCase
+{
+  std::string method = "GET", wire;
+  refhttp::Expect exp;
+  std::size_t cap = 0;
+  bool closeDelimited = false, chunked = false;
+  std::size_t chunkSize = 0;
+};
+
+std::string patternBody(std::size_t n, unsigned seed)
+{
+  std::string b(n, '\0');
+  for (std::size_t i = 0; i < n; ++i) b[i] = char('a' + (seed + i * 7 + (i >> 9)) % 26);
+  return b;
+}
+
+/// framing: 0 Content-Length, 1 chunked (equal chunks of chunkSize < cap), 2 close-delimited
+CapCase makeCapCase(std::size_t cap, std::size_t bodyLen, int framing, std::size_t chunkSize, bool interim, unsigned seed)
+{
+  CapCase k;
+  k.cap = cap;
+  std::string body = patternBody(bodyLen, seed);
+  k.exp.status = 200;
+  k.exp.reason = "OK";
+  k.exp.version = "1.1";
+  k.exp.body = body;
+  if (interim) k.wire += "HTTP/1.1 100 Continue\r\n\r\n";
+  k.wire += "HTTP/1.1 200 OK\r\n";
+  if (framing == 0)
+  {
+    k.exp.fields.push_back(refhttp::Field{"Content-Length", std::to_string(bodyLen)});
+    k.wire += "Content-Length: " + std::to_string(bodyLen) + "\r\n\r\n" + body;
+  }
+  else if (framing == 1)
+  {
+    k.chunked = true;
+    k.chunkSize = chunkSize;
+    k.exp.fields.push_back(refhttp::Field{"Transfer-Encoding", "chunked"});
+    k.wire += "Transfer-Encoding: chunked\r\n\r\n";
+    static const char *hx = "0123456789abcdef";
+    for (std::size_t off = 0; off < bodyLen; off += chunkSize)
+    {
+      std::size_t n = std::min(chunkSize, bodyLen - off);
+      std::string h;
+      for (std::size_t v = n; v; v >>= 4) h.insert(h.begin(), hx[v & 15]);
+      k.wire += h + "\r\n";
+      k.wire.append(body, off, n);
+      k.wire += "\r\n";
+    }
+    k.wire += "0\r\n\r\n";
+  }
+  else
+  {
+    k.closeDelimited = true;
+    k.wire += "Server: s\r\n\r\n" + body;
+    k.exp.fields.push_back(refhttp::Field{"Server", "s"});
+  }
+  return k;
+}
+
+/// Judges one delivery of a cap case. Empty signature = pass.
+Failure judgeCapRun(const CapCase &k, const ClientRun &r)
+{
+  auto where = [&] { return pbt::Fmt() << " [cap=" << k.cap << " body=" << k.exp.body.size() << " stream=" << k.wire.size() << " bytes, "
+                                       << (k.chunked ? "chunked x" + std::to_string(k.chunkSize) : k.closeDelimited ? std::string("close-delimited") : std::string("content-length"))
+                                       << ", " << showCuts(r.cuts, k.wire.size()) << "]"; };
+  if (r.threwOther) return {"C15/client/foreign-exception-leaves-framer", "exception other than HttpFramingError: " + r.what + where().str()};
+  if (r.complete && r.bodySize > k.cap)
+    return {"C15/client/body-beyond-cap-returned", pbt::Fmt() << "a response body of " << r.bodySize << " bytes was returned although the configured response cap is " << k.cap
+                                                              << where().str()};
+  if (k.wire.size() <= k.cap)
+  {
+    if (r.threwFraming) return {"C15/client/valid-response-rejected", "HttpFramingError although the whole stream fits the cap: " + r.what + where().str()};
+    if (!r.complete) return {"C15/client/valid-response-never-completes", "response within the cap not framed" + where().str()};
+    if (r.canon != k.exp.canon(false)) return {"C15/client/response-altered", "response within the cap returned altered" + where().str()};
+  }
+  if (r.complete && r.canon != k.exp.canon(false)) return {"C15/client/response-altered", "returned response differs from the encoded one" + where().str()};
+  return {};
+}
+
+std::vector<Cuts> capPlans(pbt::Src *src, std::size_t n)
+{
+  std::vector<Cuts> plans;
+  plans.push_back({}); // one write: the probe still splits it into 8 KiB receives
+  for (std::size_t step : {(std::size_t)1000, (std::size_t)257, (std::size_t)4096})
+  {
+    Cuts c;
+    for (std::size_t kpos = step; kpos < n; kpos += step) c.push_back(kpos);
+    plans.push_back(c);
+  }
+  if (src)
+  {
+    std::size_t step = (std::size_t)src->range(1, 3000);
+    Cuts c;
+    for (std::size_t kpos = step; kpos < n && c.size() < 70000; kpos += step) c.push_back(kpos);
+    plans.push_back(c);
+  }
+  return plans;
+}
+} // namespace
+
+PBT_PROPERTY(client_caps)
+{
+  pbt::watchdog(120, "C15/client/call-does-not-return");
+  std::size_t cap = (std::size_t)src.oneOf<std::int64_t>({4096, 8192, 16384, 65536});
+  // body length relative to the cap: well below / just below (header block decides) / at / just above / far above
+  std::size_t bodyLen;
+  switch (src.weighted({2, 3, 1, 3, 2}))
+  {
+  case 0: bodyLen = (std::size_t)src.range(0, (std::int64_t)cap / 2); break;
+  case 1: bodyLen = cap - (std::size_t)src.range(1, 400); break;
+  case 2: bodyLen = cap; break;
+  case 3: bodyLen = cap + (std::size_t)src.range(1, 400); break;
+  default: bodyLen = cap + (std::size_t)src.range(401, (std::int64_t)cap * 2); break;
+  }
+  int framing = (int)src.weighted({2, 5, 2});
+  std::size_t chunkSize = (std::size_t)src.oneOf<std::int64_t>({1, 7, 16, 100, 255, 1000, 2048});
+  if (chunkSize == 1 && bodyLen > 20000) chunkSize = 7;
+  CapCase k = makeCapCase(cap, bodyLen, framing, chunkSize, src.coin(1, 4), (unsigned)src.range(0, 25));
+  c.describe(pbt::Fmt() << "cap=" << cap << " body=" << bodyLen << " stream=" << k.wire.size() << " framing=" << framing << " chunk=" << chunkSize << " head="
+                        << refhttp::showBytes(k.wire, 120));
+  c.label(bodyLen > cap ? "body above the cap" : (k.wire.size() <= cap ? "whole stream within the cap" : "body within, stream above the cap"));
+  c.label(k.chunked ? "chunked" : k.closeDelimited ? "close-delimited" : "content-length");
+  c.nontrivial(pbt::hashMix(cap, pbt::hashMix(bodyLen, pbt::hashMix((std::uint64_t)framing, chunkSize))));
+  for (auto &cuts : capPlans(&src, k.wire.size()))
+  {
+    ClientRun r = runClient(k.method, k.wire, cuts, /*eof=*/true, cap);
+    Failure f = judgeCapRun(k, r);
+    if (f.failed()) { c.fail(f.sig, f.what); return; }
+  }
+}
+
 // ------------------------------------------------------------------------------- loopback
 // End-to-end samples over real loopback sockets: they validate that the in-process route above
 // (hooks H1/H2) represents what the socket path does. Segmentation is only *suggested* here
@@ -1005,6 +1149,24 @@ PBT_REGRESSION(client_invalid_lengths_rejected)
 PBT_REGRESSION(client_chunk_size_near_2p64)
 {
   regressClient(c, "GET", "HTTP/1.1 200 OK\r\nTransfer-Encoding: chunked\r\n\r\nFFFFFFFFFFFFFFEC\r\nhello\r\n0\r\n\r\n", false);
+}
+
+PBT_REGRESSION(client_body_beyond_cap_is_never_returned)
+{
+  pbt::watchdog(60, "C15/client/call-does-not-return");
+  c.describe("cap 4096: chunked (100-byte chunks) / content-length / close-delimited bodies of 6000, 4097, 4096 and 3000 bytes in several receives");
+  for (int framing : {1, 0, 2})
+    for (std::size_t bodyLen : {(std::size_t)6000, (std::size_t)4097, (std::size_t)4096, (std::size_t)3000, (std::size_t)12000})
+      for (std::size_t chunk : {(std::size_t)100, (std::size_t)7})
+      {
+        CapCase k = makeCapCase(4096, bodyLen, framing, chunk, false, 3);
+        for (auto &cuts : capPlans(nullptr, k.wire.size()))
+        {
+          ClientRun r = runClient(k.method, k.wire, cuts, true, 4096);
+          Failure f = judgeCapRun(k, r);
+          if (f.failed()) { c.fail(f.sig, f.what); return; }
+        }
+      }
 }
 
 PBT_MAIN()
